@@ -632,3 +632,83 @@ Proof. vm_compute. repeat split; reflexivity. Qed.
 
 Example diff_square : length (diffgen (reach sq_jumps 1) (reach sq_jumps 1)) = 9%nat.
 Proof. vm_compute. reflexivity. Qed.
+
+(* ---- one object over any history of generate / += operations ------------------------------ *)
+Definition obj_inv (jumps : list ps) (nsites : nat) (obj : sobj) : Prop :=
+  NoDup (ost obj) /\ forall s, In s (ost obj) <-> In s (states jumps nsites (oN obj) (oo obj)).
+
+Lemma fresh_inv jumps nsites N o : obj_inv jumps nsites (fresh_obj jumps nsites N o).
+Proof. split; [apply states_NoDup | intro s; reflexivity]. Qed.
+
+Lemma sadd_ext l1 l1' l2 : (forall s, In s l1 <-> In s l1') -> forall s, In s (sadd l1 l2) <-> In s (sadd l1' l2).
+Proof.
+  intros H s. rewrite !sadd_spec. rewrite H. split; intros [A|[Hz [p [q [Hp R]]]]]; try tauto;
+    right; split; try exact Hz; exists p, q; [rewrite <- H | rewrite H]; tauto.
+Qed.
+
+Lemma hstep_inv jumps nsites (Hnz : forall j, In j jumps -> iszero j = false) obj h :
+  obj_inv jumps nsites obj -> obj_inv jumps nsites (hstep jumps nsites obj h).
+Proof.
+  intros [Hn Hs]. destruct h as [N o|N o]; cbn [hstep].
+  - destruct (if Nat.eqb N (oN obj) then Bool.eqb o (oo obj) else false); [split; assumption | apply fresh_inv].
+  - destruct (Nat.ltb_spec N 1) as [H1|H1]; [split; assumption|].
+    destruct (Nat.ltb_spec (oN obj) 1) as [H2|H2]; [apply fresh_inv|].
+    split; cbn [ost oN oo].
+    + apply sadd_NoDup; exact Hn.
+    + intro s. rewrite (sadd_ext _ _ _ Hs s). apply sadd_states; assumption.
+Qed.
+
+(* INVARIANT over all histories: after any sequence of generate / += calls on one object its state
+   list is duplicate free and is exactly the set a freshly built star set of the object's current
+   range and flag has -- in particular nothing of an earlier, larger range survives *)
+Theorem hist_invariant jumps nsites N0 o0 h : (forall j, In j jumps -> iszero j = false) ->
+  obj_inv jumps nsites (hrun jumps nsites N0 o0 h).
+Proof.
+  intro Hnz. unfold hrun. generalize (fresh_inv jumps nsites N0 o0). generalize (fresh_obj jumps nsites N0 o0).
+  induction h as [|a h IH]; intros obj Hi; cbn [fold_left]; [exact Hi|].
+  apply IH. apply hstep_inv; assumption.
+Qed.
+
+(* after a generate(N, o) request -- whatever happened before -- the object has range N, flag o and the states of a
+   fresh star set with that range and flag: the LAST REQUEST decides, a changed flag is never ignored *)
+Theorem hist_last_request jumps nsites N0 o0 h N o : (forall j, In j jumps -> iszero j = false) ->
+  let obj := hrun jumps nsites N0 o0 (h ++ [HGen N o]) in
+  oN obj = N /\ oo obj = o /\ NoDup (ost obj) /\ forall s, In s (ost obj) <-> In s (states jumps nsites N o).
+Proof.
+  intro Hnz. cbv zeta. pose proof (hist_invariant jumps nsites N0 o0 (h ++ [HGen N o]) Hnz) as [Hn Hs].
+  unfold hrun in *. rewrite fold_left_app in *. cbn [fold_left] in *.
+  set (obj := fold_left (hstep jumps nsites) h (fresh_obj jumps nsites N0 o0)) in *.
+  assert (E : oN (hstep jumps nsites obj (HGen N o)) = N /\ oo (hstep jumps nsites obj (HGen N o)) = o).
+  { cbn [hstep]. destruct (Nat.eqb_spec N (oN obj)) as [E1|E1]; [|split; reflexivity].
+    destruct (Bool.eqb o (oo obj)) eqn:E2; [|split; reflexivity].
+    apply Bool.eqb_prop in E2. split; congruence. }
+  destruct E as [E1 E2]. split; [exact E1|]. split; [exact E2|]. split; [exact Hn|].
+  intro s. rewrite (Hs s), E1, E2. reflexivity.
+Qed.
+
+Theorem run_hist_sound jumps nsites N0 o0 h ops ists istars iindex qs :
+  run_hist jumps nsites N0 o0 h ops ists istars iindex qs = 0%nat ->
+  let obj := hrun jumps nsites N0 o0 h in
+  (forall s, In s ists <-> In s (ost obj)) /\
+  run_starset jumps nsites (oN obj) (oo obj) ops ists istars iindex qs = 0%nat.
+Proof.
+  unfold run_hist. cbv zeta.
+  destruct (jumps_okb jumps) eqn:Hj; cbn [negb]; [|discriminate].
+  destruct (sameb ists (ost (hrun jumps nsites N0 o0 h))) eqn:Hs; cbn [negb]; [|discriminate].
+  intro H. split; [apply sameb_spec; exact Hs | exact H].
+Qed.
+
+(* shrinking on one object: generate 3, then 1: exactly the first shell again *)
+Example hist_flag_toggle :
+  length (ost (hrun sq_jumps 1 2 false [HGen 2 true])) = 13%nat /\
+  length (ost (hrun sq_jumps 1 2 true [HGen 2 false])) = 12%nat /\
+  length (ost (hrun sq_jumps 1 2 true [HGen 2 true])) = 13%nat.
+Proof. vm_compute. repeat split; reflexivity. Qed.
+
+Example hist_shrink :
+  let obj := hrun sq_jumps 1 3 true [HGen 1 false] in
+  oN obj = 1%nat /\ length (ost obj) = 4%nat /\
+  sindex (ost obj) (mkPS 0 0 (2, 0, 0)%Z) = None /\ sindex (ost obj) (zero 0) = None /\
+  sameb (ost (hrun sq_jumps 1 1 true [HGen 2 false; HAdd 1 true; HGen 3 true; HGen 2 true]))
+        (states sq_jumps 1 2 true) = true.
+Proof. vm_compute. repeat split; reflexivity. Qed.
